@@ -33,7 +33,7 @@ def input_array(inp):
 class C03(Check):
     pid = 'C03'
     timeout = 90.0
-    quick_runs = 1600
+    quick_runs = 1280
     thorough_budget_s = 900
     rule = ('one run = one seeded (model spec, dt, sampling ratio m, rows K, cutoff, solver, precision, vectorize, '
             'optional extrinsic input, optional RHS fault) executed through CircuitTemplate.run in a pristine fork '
